@@ -12,14 +12,18 @@ pub fn deserialize_entity(message: &mut Bytes) -> Result<Entity> {
     let flagged_index: u64 = postcard_utils::from_buf(message)?;
     let has_generation = (flagged_index & 1) > 0;
     let generation = if has_generation {
-        postcard_utils::from_buf::<u32, _>(message)? + 1
+        // The value comes from the network, so the increment must not overflow.
+        postcard_utils::from_buf::<u32, _>(message)?
+            .checked_add(1)
+            .ok_or(postcard::Error::DeserializeBadVarint)?
     } else {
         1u32
     };
 
     let bits = ((generation as u64) << 32) | (flagged_index >> 1);
 
-    Ok(Entity::from_bits(bits))
+    // `Entity::from_bits` panics on bits that don't form a valid entity (such as a too big generation).
+    Ok(Entity::try_from_bits(bits)?)
 }
 
 /// Serializes `entity` by writing its index and generation as separate varints.
